@@ -1539,8 +1539,12 @@ class Interp:
                     inner = type(node)(items=node.items[1:], body=node.body, type_comment=None)
                     body = [ast.copy_location(inner, node)]
                 return self._with_generator_cm(fv0, fi0, item0, body, node, st, ctx)
+        suppressed: Optional[List[str]] = None
         for item in node.items:
             v = self.eval(item.context_expr, st, ctx)
+            if isinstance(v, tuple) and v[:2] == ("app", "contextlib.suppress") and len(node.items) == 1 and item.optional_vars is None \
+                    and all(isinstance(x, tuple) and x[0] in ("ext", "builtin") for x in v[2:]):
+                suppressed = [x[1].split("builtins.")[-1] for x in v[2:]]
             if item.optional_vars is not None:
                 self.assign(item.optional_vars, v, st, ctx)
         out = []
@@ -1548,7 +1552,13 @@ class Interp:
             if sig is not None:
                 out.append((s, sig))
             else:
-                out.extend(self.exec_block(node.body, s, ctx))
+                for s2, sig2 in self.exec_block(node.body, s, ctx):
+                    if suppressed is not None and sig2 is not None and sig2[0] == "raise" and any(exc_is_subclass(sig2[1][1], n_) for n_ in suppressed):
+                        # contextlib.suppress(E...): an exception of one of these classes ends the block quietly
+                        s2.events.append(Event("caught", sig2[1][1], (), (), ctx.loc(node), ctx.fi.key if ctx.fi else "", pc_len=len(s2.pc)))
+                        out.append((s2, None))
+                    else:
+                        out.append((s2, sig2))
         return out
 
     st_AsyncWith = st_With
@@ -1820,11 +1830,20 @@ class Interp:
         for kw in call.keywords:
             if kw.arg is None:
                 dv = self.eval(kw.value, st, ctx)
-                pairs2 = None
-                if dv[0] == "cdict":
-                    pairs2 = list(dv[1])
-                elif dv[0] == "obj" and st.heap[dv[1]].kind == "dict" and not st.heap[dv[1]].symbolic:
-                    pairs2 = list(st.heap[dv[1]].items)
+
+                def pairs_of(m: Term) -> Optional[List[Tuple[Term, Term]]]:
+                    if m[0] == "cdict":
+                        return list(m[1])
+                    if m[0] == "obj" and st.heap[m[1]].kind == "dict" and not st.heap[m[1]].symbolic:
+                        return list(st.heap[m[1]].items)
+                    if m[0] == "ite" and len(m) == 4:
+                        # one of two mappings with the same keys: each value is the choice of the two values
+                        pa, pb = pairs_of(m[2]), pairs_of(m[3])
+                        if pa is not None and pb is not None and [k for k, _ in pa] == [k for k, _ in pb]:
+                            return [(k, ite(m[1], va, vb)) for (k, va), (_, vb) in zip(pa, pb)]
+                    return None
+
+                pairs2 = pairs_of(dv)
                 if pairs2 is None:
                     raise AnalysisError(f"**kwargs of an unknown mapping at {ctx.loc(call)}")
                 for k2, v2 in pairs2:
@@ -2071,7 +2090,7 @@ class Interp:
             return v
         if t == "tuple":
             xs = [self.reify(x, st) for x in v[1]]
-            return None if any(x is None for x in xs) else ("tuple", tuple(xs))
+            return None if any(x is None for x in xs) else ("tuple", tuple(xs)) + tuple(v[2:])     # (a NamedTuple keeps its field names)
         if t in ("clist", "cset"):
             xs = [self.reify(x, st) for x in v[1]]
             return None if any(x is None for x in xs) else (t, tuple(xs))
@@ -2380,9 +2399,14 @@ class Interp:
                 # a typing.NamedTuple: the tuple of its fields in declaration order
                 names = [st_.target.id for st_ in fv[1].node.body if isinstance(st_, ast.AnnAssign) and isinstance(st_.target, ast.Name)]
                 vals = list(args)
+                dflt = {st_.target.id: st_.value for st_ in fv[1].node.body if isinstance(st_, ast.AnnAssign) and isinstance(st_.target, ast.Name) and st_.value is not None}
                 for nm in names[len(vals):]:
                     if nm in kwargs:
                         vals.append(kwargs[nm])
+                    elif nm in dflt:
+                        vals.append(self.eval(dflt[nm], st, Ctx(None, fv[1].module, ctx.depth)))     # field default
+                    else:
+                        break
                 if len(vals) == len(names):
                     return ("tuple", tuple(vals), ("nt", fv[1].key, tuple(names)))   # (the third component names the fields)
             tgt_ = fv[1] if t == "func" else fv[2] if t == "bound" else None
@@ -2390,6 +2414,18 @@ class Interp:
                 # calling a coroutine function only creates the coroutine object; its body runs where it is awaited
                 return ("coro", fv, tuple(args), tuple(sorted(kwargs.items())))
             return self.call_user_nested(fv, args, kwargs, st, ctx, node)
+        if t == "ite" and len(fv) == 4 and all(isinstance(x, tuple) and x and x[0] in ("ntmeth", "lambda", "func", "bound", "partialobj", "biometh") for x in fv[2:]):
+            # a method picked off a two-way choice of values (`(a if p else b).m()`): the choice of the two results;
+            # what one alternative may raise is raised only when it is the one chosen
+            res_ = []
+            n_ev = len(st.events)
+            for cnd_, f_ in ((fv[1], fv[2]), (neg(fv[1]), fv[3])):
+                n0 = len(st.pending)
+                res_.append(self.call(f_, list(args), dict(kwargs), st, ctx, node, awaited))
+                st.pending[n0:] = [(e_, conj([cnd_, c2_]), w_, nev_) for e_, c2_, w_, nev_ in st.pending[n0:]]
+            if len(st.events) != n_ev:
+                raise AnalysisError(f"call of a conditionally chosen callable with observable effects at {ctx.loc(node)}")
+            return ite(fv[1], res_[0], res_[1])
         if t == "coro" and not args and not kwargs:
             raise AnalysisError(f"coroutine object called at {ctx.loc(node)}")
         if t == "ext":
@@ -2592,6 +2628,19 @@ class Interp:
                 w_ = T.const_width(("seq", "s", x_[1]))
                 if w_ is not None and 0 <= y_[1] < 16 ** int(w_):
                     return self.compare(op, ("seq", "s", x_[1]), c(format(y_[1], f"0{int(w_)}x")), st, ctx, node)
+        if name in ("is", "is not", "==", "!=") and is_c(b) and b[1] is None and isinstance(a, tuple) and len(a) == 4 and a[0] == "ite" and _is_cond(a[1]):
+            # (x if p else y) is None: decided per branch - in the true branch p holds (so a value p says is truthy is
+            # not None), in the false branch not p
+            ra = self.compare(op, a[2], b, st, ctx, node)
+            rb = self.compare(op, a[3], b, st, ctx, node)
+            if not is_c(ra):
+                d_ = decided_by(_atoms(a[1]), ra)
+                ra = c(d_) if d_ is not None else ra
+            if not is_c(rb):
+                d_ = decided_by(_atoms(neg(a[1])), rb)
+                rb = c(d_) if d_ is not None else rb
+            if is_c(ra) and is_c(rb):
+                return c(ra[1]) if ra[1] == rb[1] else (a[1] if ra[1] else neg(a[1]))
         a2, b2 = self.canon_cmp_operand(a, st), self.canon_cmp_operand(b, st)
         # a raw byte string compared with literal bytes: bring the literal to the raw (hex nibble) form too
         if T.is_seq(a) and T.is_seq(a2) and a[1] == "raw" and is_c(b) and isinstance(b[1], bytes):
@@ -2905,6 +2954,11 @@ class Interp:
             return c(True)
         if t == "sym" and isinstance(v[2], tuple) and v[2] and v[2][0] == "extobj":
             return c(True)  # library objects (transports, streams) define no __bool__/__len__
+        if t == "uint":
+            w_ = T.const_width(("seq", "s", v[1]))
+            if w_ is not None and int(w_) > 0:
+                # a number read from w hex digits is zero exactly when the digits are all '0'
+                return mkcmp("!=", ("seq", "s", v[1]), c("0" * int(w_)))
         if t in ("app", "lin", "uint", "eattr") and _is_int_term(v):
             return mkcmp("!=", v, c(0))   # the truth of an integer is `!= 0`
         return ("truthy", v)
@@ -3093,9 +3147,18 @@ def neg(cond: Term) -> Term:
     return ("not", cond)
 
 
+def _fold_const_cmp(p: Term) -> Term:
+    if isinstance(p, tuple) and len(p) == 4 and p[0] == "cmp" and is_c(p[2]) and is_c(p[3]):
+        r = fold_cmp(p[1], p[2], p[3])
+        if r is not None:
+            return c(r)
+    return p
+
+
 def conj(parts: List[Term]) -> Term:
     out: List[Term] = []
     for p in parts:
+        p = _fold_const_cmp(p)
         if is_c(p):
             if not p[1]:
                 return c(False)
@@ -3123,6 +3186,7 @@ def conj(parts: List[Term]) -> Term:
 def disj(parts: List[Term]) -> Term:
     out: List[Term] = []
     for p in parts:
+        p = _fold_const_cmp(p)
         if is_c(p):
             if p[1]:
                 return c(True)
